@@ -157,3 +157,11 @@ Proof.
     as [[Hb [_ [_ [Hd Hc]]]] [_ HP]].
   apply (power_exact _ _ (HP eq_refl) (Hd T) Hb (Hc eq_refl)). apply kmem_false. exact U.
 Qed.
+
+(* unique table ids: recover_sh [] is recover *)
+Lemma recover_sh_nil_l : forall m s, recover_sh [] m s = recover m s.
+Proof.
+  assert (F : forall l : list Z, filter (fun f => negb (mem f [])) l = l).
+  { induction l as [| a r IH]; [reflexivity |]. cbn [filter]. cbn [mem existsb negb]. cbn [mem existsb negb] in IH. rewrite IH. reflexivity. }
+  intros m s. destruct m; unfold recover_sh, recover; rewrite F; reflexivity.
+Qed.
